@@ -149,6 +149,28 @@ func (t *timed) fireHonest(i int) int64 {
 	switch {
 	case res.Interrupted:
 		wait = int64(b.Config.RoundInterruptTimeoutMS)
+		// invariant of the real timer arithmetic: wherever a replica abandons a round, the time it has spent in the round
+		// (the waits of the phases before the one whose handler interrupted) plus what RoundInterrupt sleeps is the full
+		// round length — so that all replicas start the next round together
+		var spent, full int64
+		for p := bft.Election; p <= bft.Commit; p++ {
+			w := b.WaitTime(p, roundBefore).Milliseconds()
+			full += w
+			if p < before {
+				spent += w
+			}
+		}
+		if spent+wait != full {
+			t.o.Count("invariant:round-interrupt-misaligned:" + lib.Phase_name[int32(before)])
+			if !t.r.Failed() {
+				t.r.SetFailed()
+				t.o.Fail("C15:round-interrupt-misaligned:"+lib.Phase_name[int32(before)],
+					fmt.Sprintf("%s: replica %d abandoned round %d in %s after %d ms and sleeps %d ms: %d ms, but the round lasts %d ms (timeouts %v)", t.r.Name(), i, roundBefore, lib.Phase_name[int32(before)], spent, wait, spent+wait, full, timeouts(b)),
+					map[string]any{"timeouts_ms": timeouts(b), "round": roundBefore, "phase": lib.Phase_name[int32(before)], "spent_ms": spent, "sleep_ms": wait, "round_ms": full})
+			}
+		} else {
+			t.o.Count("invariant:round-interrupt-aligned:" + lib.Phase_name[int32(before)])
+		}
 		ts := timeouts(b)
 		t.o.Op(fmt.Sprintf("msleft %d %d %d %d %d %d %d %d %d", int(before), roundBefore, ts[0], ts[1], ts[2], ts[3], ts[4], ts[5], ts[6]), fmt.Sprint(wait))
 	case before == bft.Pacemaker:
